@@ -25,19 +25,19 @@ PENDING = {}
 
 CHECKS = {
  "C03": dict(engine="curve-sim", cat="exploration", ref="DESIGN.md 4.1",
-   text="seeded search over operation and fault sequences (3-25 ops per history, optimiser/model/preprocessing faults injected inside calls) on one curve object; after every op the object is compared bit for bit with a freshly built curve that applies only the stored settings, and a repeated fit must make zero optimiser calls. Sampling, not enumeration: a clean batch is evidence with the stated reach.",
+   text="seeded search over operation and fault sequences (3-25 ops per history, optimiser/model/preprocessing faults injected inside calls) on one curve object; after every op the object is compared bit for bit with a freshly built curve that applies only the stored settings; a repeated fit (fit_model() and the identical call again) must make zero optimiser calls and change nothing; module-level default tables must be untouched; a sample of runs is re-executed in a fresh interpreter (no earlier objects, other hash seed) and must give the same event log. A directed prefix rotates over every setting key and route per batch. Sampling, not enumeration: a clean batch is evidence with the stated reach.",
    note="oracle recomputes with nanite's own code (detects history/cache/alias dependence, not a formula wrong the same way from scratch); caller is well behaved (fresh copies); lmfit's default evaluation budget is capped at the optimiser seam and its abort-path use-after-free is neutralised there"),
  "C06": dict(engine="curve-sim", cat="exploration", ref="DESIGN.md 4.2",
-   text="seeded histories of valid, invalid and transiently failing preprocessing requests through all four request routes, interleaved with fits and edits; every accepted request is compared bit for bit with a fresh curve given the same steps/options, rejected requests must not be remembered, raw data must never change, and for flagged requests a fault is placed at EVERY seam call of that request (fail, check, retry, check). Exploration over histories; complete over fault positions of the flagged requests.",
+   text="seeded histories of valid, invalid and transiently failing preprocessing requests through all four request routes, interleaved with fits and edits; every accepted request is compared bit for bit with a fresh curve given the same steps/options, rejected requests must not be remembered, raw data must never change, and for flagged requests a fault is placed at EVERY seam call of that request (fail, check, retry, check). Other curves are preprocessed in between and one run in eight is compared with a fresh-interpreter twin that skips them (state leaking between objects of one process). Exploration over histories; complete over fault positions of the flagged requests.",
    note="rejected = the exception left apply_preprocessing (phase bracket seam); reference is nanite's own preprocessing on a fresh curve; clones for fault enumeration are asserted observation-equal"),
  "C09": dict(engine="curve-sim", cat="exploration", ref="DESIGN.md 4.3",
-   text="seeded histories mixing preprocessing, fits (successful, unsuccessful, aborted by injected faults), setting edits and rate_quality over all regressors, five training-set forms, feature subsets and LDA flags; totality, value == standalone rater on a freshly rebuilt curve, 'none' -> -1, range for the averaging tree regressors, one-directional cache rule via the get_rater seam, repeat-call identity, and re-execution of sampled runs in a fresh interpreter under another PYTHONHASHSEED.",
+   text="seeded histories mixing preprocessing, fits (successful, unsuccessful, aborted by injected faults), setting edits and rate_quality over all regressors, five training-set forms, feature subsets and LDA flags; totality, value == the statement's ordering (failed binary criterion 0, undefined feature -1, else prediction) applied to the features of a freshly rebuilt curve with an independently assembled reference rater, and == the standalone rater; 'none' -> -1; without a successful fit only -1 (or 0 below 600 approach points); range for the averaging tree regressors; one-directional cache rule via the get_rater seam with one-key variations of the request and held objects edited in place; the same feature selection in another order rates the same; shared regressor defaults untouched; repeat-call identity; re-execution of sampled runs in a fresh interpreter under another PYTHONHASHSEED.",
    note="standalone rater and the rater requested through the seam are memoised per configuration (deterministic construction); domain = configurations for which the standalone rater builds"),
  "C10": dict(engine="curve-sim", cat="exploration", ref="DESIGN.md 4.4",
-   text="twin-world simulation: one seeded op list of hold / pass / edit-in-place / pass-again scenarios over every mutable argument kind (parameter sets, step lists, option and method dictionaries, ranges, feature-name lists, force and sample arrays; with gcf_k, multi-pass ranges and plateau search) is executed by an aliasing caller and by a by-value caller; outcomes and full curve observations must be identical after every library call, and every argument must be unchanged by the call.",
+   text="twin-world simulation: one seeded op list of hold / pass / edit-in-place / pass-again scenarios over every mutable argument kind (parameter sets, step lists, option and method dictionaries, ranges, feature-name lists, force and sample arrays; with gcf_k, multi-pass ranges and plateau search) is executed by an aliasing caller and by a by-value caller; outcomes and full curve observations must be identical after every library call (A1), every argument must be unchanged by the call (A2), the by-value world must equal a fresh curve with the stored settings (A3: the change was really noticed), and returned arrays must not share memory with array arguments (A4).",
    note="held objects = created-and-passed objects and return values of get_initial_fit_parameters(); reads of public attributes / fit_properties items are not 'returned objects'"),
  "C12": dict(engine="hash-walk", cat="exploration", ref="DESIGN.md 4.5",
-   text="seeded one-thing-at-a-time walks (8-30 states) over curve data, pipeline, options, every fit-setting key, parameter attributes, 1-ulp single-sample perturbations, representation variants and don't-care edits on a live object; for every pair of states 'hash equal <=> the harness's own canonical form of the effective settings equal'; every state is also hashed on a fresh object that receives the stored settings in shuffled order and other representations; stored hash after fit_model == recomputed hash; sampled walks are re-executed in a fresh interpreter under another PYTHONHASHSEED. Which value pairs are visited is seeded sampling biased to encoder hazards - exploration, not enumeration.",
+   text="seeded one-thing-at-a-time walks (8-30 states) over curve data, pipeline, options, every fit-setting key, parameter attributes, 1-ulp single-sample perturbations, representation variants and don't-care edits on a live object; for every pair of states 'hash equal <=> the harness's own canonical form of the effective settings equal'; every state is also hashed on a fresh object that receives the stored settings in shuffled order and other representations; stored hash after fit_model == recomputed hash, and a stored hash that survives any step must still be current; module-level defaults untouched; sampled walks are re-executed in a fresh interpreter under another PYTHONHASHSEED. Which value pairs are visited is seeded sampling biased to encoder hazards - exploration, not enumeration.",
    note="canonical form is independent of nanite's byte encoding; invalid setting combinations (fitter sanity checks raise) are outside the hash's domain; direct column edits by the harness drop results like a setting edit"),
  "C16": dict(engine="container-sim", cat="fault_enumeration", ref="DESIGN.md 4.6",
    text="histories of saves into 1-2 rating containers (new curve, same curve again, similar and clearly different fits, several measurement files and enumerations) against a reference map of acknowledged entries, on real HDF5 files with a simulated clock; for every flagged save (one per history in the quick tier, every save in the thorough tier) a failure is injected at EVERY h5py write call of that save, before the call takes effect and after it, each on its own copy of the container: the container must stay readable and equal to the reference, then the save is retried and must be a proper acknowledged save. Complete over the fault positions of the flagged saves; exploration over histories.",
